@@ -66,6 +66,28 @@ func c03Helper(t *testing.T, run *h.Run, maxN int) bool {
 }
 
 func c03HelperOne(run *h.Run, api *w.API, seq []int, cfg c03Config, now time.Time) {
+	c03HelperEval(run, "C03", api, seq, cfg, now, func(deleted []bool, mu, mf int) (string, string) { return c03Oracle(seq, deleted, mu, mf) })
+}
+
+// c09DeleteHelper: the per-sync bound on update deletions of C09 on the real ManageDeployment.
+func c09DeleteHelper(t *testing.T, run *h.Run, seqs [][]int) bool {
+	cfgs := c03Configs()
+	parallel(16, func(wk int) {
+		w.InBubble(t, time.Hour, func() {
+			now := time.Now()
+			api := w.NewAPI(nil)
+			for i := wk; i < len(seqs); i += 16 {
+				for _, cfg := range cfgs {
+					c03HelperEval(run, "C09", api, seqs[i], cfg, now, c09DeleteJudge)
+				}
+				run.Count("helper_calls", int64(len(cfgs)))
+			}
+		})
+	})
+	return true
+}
+
+func c03HelperEval(run *h.Run, prop string, api *w.API, seq []int, cfg c03Config, now time.Time, judge func(deleted []bool, mu, mf int) (string, string)) {
 	eds := w.NewEDS("ns", "foo", "A", w.WithFrequency(10*time.Second), w.WithRolling(cfg.mu, "100%", 250, time.Minute))
 	eds.Spec.Strategy.RollingUpdate.MaxPodSchedulerFailure = w.IntOrStr(cfg.mpsf)
 	eds = v1.DefaultExtendedDaemonSet(eds, v1.ExtendedDaemonSetSpecStrategyCanaryValidationModeAuto)
@@ -100,8 +122,8 @@ func c03HelperOne(run *h.Run, api *w.API, seq []int, cfg c03Config, now time.Tim
 	}
 	mu := resolveStr(cfg.mu, len(seq))
 	mf := resolveStr(cfg.mpsf, len(seq))
-	if sig, msg := c03Oracle(seq, deleted, mu, mf); sig != "" {
-		run.Violate(h.Violation{Signature: sig, Monitor: "C03/helper", Message: msg, Rank: int64(len(seq)),
+	if sig, msg := judge(deleted, mu, mf); sig != "" {
+		run.Violate(h.Violation{Signature: sig, Monitor: prop + "/helper", Message: msg, Rank: int64(len(seq)),
 			Replay: map[string]interface{}{"level": "ManageDeployment", "classes": c03Names(seq), "maxUnavailable": cfg.mu, "maxPodSchedulerFailure": cfg.mpsf, "stored_status_desired_offset": cfg.stale, "deleted": deleted}})
 	}
 	if len(res.PodsToDelete) > 0 {
